@@ -198,39 +198,42 @@ def run(ix, R):
     with R.guard('1.part.profiles', 'MPI', site, 'partition'):
         f = ix.func(site)
         fl = mkflow(ix, site)
-        inner = ix.func(site + '.sample_iter')
-        loops = [n for n in walk_no_nested(inner.node) if isinstance(n, ast.For)]
-        lp = one(loops, 'sample loop')
-        it = lp.iter
-        ok = isinstance(it, ast.Subscript) and isinstance(it.slice, ast.Slice) and it.slice.upper is None and \
-            isinstance(it.slice.lower, ast.Name) and isinstance(it.slice.step, ast.Name)
+        from rules.C06 import closure_flow
+        outer, inner, cfl = closure_flow(ix, site, 'sample_iter')
+        fl = outer
+        ys = cfl.of('yield')
+        y = one(ys, 'yield in the sample iterator')
+        lp = one(y.loops, 'sample loop')
+        it = lp.iter_rf[0]
+        bvals = [e.value for e in fl.of('assign') if isinstance(e.value, RF) and atom_of(fl, e.value) is not None and
+                 atom_of(fl, e.value).head == 'call' and 'broadcast' in atom_of(fl, e.value).extra[0]]
         why = []
-        if not ok:
-            why.append('iterates %s' % unparse(it))
+        ia = atom_of(cfl, it)
+        sl = ia.args[1] if ia is not None and ia.head == 'idx' and len(ia.args) == 2 else None
+        from sa.algebra import Slice
+        if not isinstance(sl, Slice) or sl.hi is not None or sl.lo is None or sl.step is None:
+            why.append('iterates %s' % fmt(cfl, it)[:120])
         else:
-            lo, st = it.slice.lower.id, it.slice.step.id
-            env = {e.name: e.value for e in fl.of('assign')}
-            if lo not in env or not fl.tab.equal(env[lo], spec(fl, 'mpi.get_rank()')):
-                why.append('%s = %s' % (lo, fmt(fl, env.get(lo))))
-            if st not in env or not fl.tab.equal(env[st], spec(fl, 'mpi.nprocs()')):
-                why.append('%s = %s' % (st, fmt(fl, env.get(st))))
-            bnames = {e.name for e in fl.of('assign') if isinstance(e.value, RF) and 'broadcast' in fmt(fl, e.value)}
-            if unparse(it.value) not in bnames:
-                why.append('partitions %s, which is not the broadcast list' % unparse(it.value))
+            if not cfl.tab.equal(sl.lo, spec(cfl, 'mpi.get_rank()')):
+                why.append('starts at %s' % fmt(cfl, sl.lo))
+            if not cfl.tab.equal(sl.step, spec(cfl, 'mpi.nprocs()')):
+                why.append('steps by %s' % fmt(cfl, sl.step))
+            if not any(cfl.tab.equal(ia.args[0], b_) for b_ in bvals):
+                why.append('partitions %s, which is not the broadcast list' % fmt(cfl, ia.args[0])[:80])
         R.check('1.part.profiles', 'MPI', site,
                 'samples are split as sample_list[rank::size], rank = mpi.get_rank(), size = mpi.nprocs() (disjoint cover)',
-                not why, key='; '.join(why), detail='; '.join(why), loc=inner.loc(lp))
+                not why, key='; '.join(why), detail='; '.join(why), loc=inner.loc(lp.node))
         # each sample: update_model(parameters) then yield its own weight
-        um = [n for n in ast.walk(lp) if isinstance(n, ast.Call) and unparse(n.func) == 'self.update_model']
-        ys = [n for n in ast.walk(lp) if isinstance(n, ast.Yield)]
-        tnames = [x.id for x in lp.target.elts] if isinstance(lp.target, ast.Tuple) else []
-        ok = len(um) == 1 and len(ys) == 1 and len(tnames) == 2 and unparse(um[0].args[0]) == tnames[0] and \
-            unparse(ys[0].value) == tnames[1]
-        cd = control_deps(inner, ys[0]) if ys else []
-        ok = ok and [unparse(x) for x in cd] == [unparse(it)]
+        item = cfl.tab.atom('elem', (it, lp.index))
+        um = [e for e in calls(cfl, 'update_model')]
+        ok = len(um) == 1 and len(um[0].args) == 1 and cfl.tab.equal(um[0].args[0], cfl.tab.atom('idx', (item, cfl.tab.const(0)))) and \
+            y.value is not None and cfl.tab.equal(y.value, cfl.tab.atom('idx', (item, cfl.tab.const(1)))) and \
+            um[0].loops == (lp,) and not um[0].guards and y.loops == (lp,) and not y.guards and \
+            cfl.events.index(um[0]) < cfl.events.index(y)
         R.check('1.once', 'MPI', site, 'every assigned sample updates the model and yields its own weight exactly once, unconditionally',
                 ok, key='update/yield', detail='update_model %s, yields %s under %s' % (
-                    [unparse(x) for x in um], [unparse(x) for x in ys], [unparse(x) for x in cd]), loc=inner.loc(lp))
+                    [fmt(cfl, a_) for e in um for a_ in e.args], fmt(cfl, y.value) if y.value is not None else None,
+                    [g.text() for g in y.guards]), loc=inner.loc(lp.node))
         ce = one(calls(fl, 'compute_error'), 'compute_error call')
         R.check('1.feed', 'ARG', site, 'the partitioned iterator is what compute_error consumes, with the observation binner',
                 unparse(ce.node.args[0]) == 'sample_iter' and unparse(ce.node.func) == 'self._model.compute_error'
@@ -275,11 +278,16 @@ def run(ix, R):
         ba = atom_of(fl, bc.args[0])
         if ba is None or ba.head != 'guard' or 'sample_parameters' not in fmt(fl, ba.args[1]):
             why.append('broadcasts %s' % fmt(fl, bc.args[0]))
-        inner_ = ix.func(site + '.sample_iter')
-        part = [n.iter.value.id for n in walk_no_nested(inner_.node) if isinstance(n, ast.For) and
-                isinstance(n.iter, ast.Subscript) and isinstance(n.iter.value, ast.Name)]
-        asg = [e for e in fl.of('assign') if part and e.name == part[0]]
-        if not asg or 'broadcast' not in fmt(fl, asg[-1].value):
+        from rules.C06 import closure_flow
+        _o, _i, cfl = closure_flow(ix, site, 'sample_iter')
+        ys_ = cfl.of('yield')
+        part_ok = False
+        if ys_ and ys_[0].loops:
+            ia_ = atom_of(cfl, ys_[0].loops[0].iter_rf[0])
+            bres = [e.value for e in _o.of('assign') if isinstance(e.value, RF) and atom_of(_o, e.value) is not None and
+                    atom_of(_o, e.value).head == 'call' and 'broadcast' in atom_of(_o, e.value).extra[0]]
+            part_ok = ia_ is not None and ia_.head == 'idx' and any(cfl.tab.equal(ia_.args[0], b_) for b_ in bres)
+        if not part_ok:
             why.append('partitioned list is not the broadcast result')
         R.check('2.draw', 'MPI', site,
                 'the random sub-sample is drawn only on rank 0, then broadcast unconditionally, and the broadcast '
@@ -545,18 +553,23 @@ for V_x in V_s:
         w = fl.tab.atom('elem', (lp.iter_rf[0], lp.index))
         ok = all(e.kw.get('weight') is not None and fl.tab.equal(e.kw['weight'], w) for e in ups) and \
             unparse(lp.iter_ast) == 'samples()'
+        # (how many accumulators there are is the model's business; each one that is fed must be fed the sample's weight)
+        bad_w = [e for e in ups if not (e.kw.get('weight') is not None and fl.tab.equal(e.kw['weight'], w))]
         R.check('5.feed', 'ARG', site, 'every accumulator is updated with the weight yielded for that sample',
-                ok and len(ups) >= 4, key=str([unparse(e.node)[:60] for e in ups]),
-                detail='%d updates' % len(ups), loc=f.loc())
+                ok and len(ups) >= 1, key=str([unparse(e.node)[:60] for e in (bad_w or ups)]),
+                detail='%d updates, %d without the yielded weight' % (len(ups), len(bad_w)), loc=f.loc())
         pv = calls(fl, 'parallelVariance')
         def _exists(g):
             a_ = atom_of(fl, g.rf) if g.rf is not None else None
             return a_ is not None and a_.head == 'cmp' and a_.extra == ('Is',) and not g.positive and \
                 fmt(fl, a_.args[-1]) == 'None'
         okp = all(not e.guards or all(_exists(g) for g in e.guards) for e in pv)
-        R.check('5.pv', 'MPI', site, 'parallelVariance (which gathers) is called for the same accumulators on every rank',
-                okp and len(pv) >= 4, key=str([[g.text() for g in e.guards] for e in pv]),
-                detail=str([[g.text() for g in e.guards] for e in pv]), loc=f.loc())
+        if not pv:
+            R.error('5.pv', 'MPI', site, 'parallelVariance calls are found', 'no parallelVariance call in compute_error', loc=f.loc())
+        else:
+            R.check('5.pv', 'MPI', site, 'parallelVariance (which gathers) is called for the same accumulators on every rank',
+                    okp, key=str([[g.text() for g in e.guards] for e in pv]),
+                    detail=str([[g.text() for g in e.guards] for e in pv]), loc=f.loc())
 
 
 MUTANTS = [
